@@ -312,6 +312,34 @@ func runsThenJumps(r *vf.Run, check func(m *mapper, a uint32)) {
 					// the oracle itself makes calls in both directions; the first one is the jump
 					check(m, a)
 					n++
+					// a walk downwards that crosses the bottom of the page (a block move with decrementing
+					// addresses): the last address of the run is the first byte of the page, the judged one
+					// the last byte of the page below
+					top := page<<13 + uint32(runLen) - 1
+					for k := 0; k < runLen; k++ {
+						if dir == 0 {
+							_, _ = m.p2b(top - uint32(k))
+						} else {
+							_, _ = m.b2p(top - uint32(k))
+						}
+					}
+					if page > 0 {
+						check(m, page<<13-1)
+						n++
+					}
+					// ... and upwards across the top of the page
+					bot := page<<13 | 0x1FFF - uint32(runLen) + 1
+					for k := 0; k < runLen; k++ {
+						if dir == 0 {
+							_, _ = m.p2b(bot + uint32(k))
+						} else {
+							_, _ = m.b2p(bot + uint32(k))
+						}
+					}
+					if page < 2047 {
+						check(m, (page+1)<<13)
+						n++
+					}
 				}
 			}
 		}
